@@ -295,7 +295,7 @@ def c15(k, ctx):
 
 
 def c14(k, ctx):
-    ctx.rule = ("one case = one modulated triple/bit (through four memory layouts of the input array), one demodulated sample (polar grid radius 0..1000 x 16/64 angles x sigma 0.01..100, "
+    ctx.rule = ("one case = one modulated triple/bit (through four memory layouts of the input array), one demodulated sample (polar grid radius 0..1000 x 16/64 angles x sigma 1e-12..1e9 through both public constructors, "
                 "random samples, BPSK line), or one noiseless round trip (every bit sequence up to length 9 (12) for 8PSK and 6 for BPSK, random long ones, four layouts); "
                 "non-trivial = distinct demodulation cases whose sample is not a constellation point + round trips of at least two symbols")
     ctx.tlc_mc("MC_Psk")
